@@ -7,11 +7,13 @@ package centrifuge
 // about node state ("routing entry", "no trace"), the hub tables of the real node.
 
 import (
+	"errors"
 	"fmt"
 	"sort"
 	"strings"
 	"time"
 
+	"github.com/centrifugal/protocol"
 	dto "github.com/prometheus/client_model/go"
 )
 
@@ -578,6 +580,10 @@ func (w *w1World) checkClientLog(cl *w1SimClient) {
 		w.checkPositioned(in)
 	}
 	cl.instances = instances
+	// ---- C36
+	if w.prop == "C36" {
+		w.checkLiveness(cl)
+	}
 	// ---- C09
 	w.checkCommands(cl)
 	// ---- C08
@@ -972,6 +978,245 @@ func (w *w1World) overlappingSubUnsub(cl *w1SimClient, ch string) bool {
 		}
 	}
 	return false
+}
+
+// waitReply lets simulated time pass until the reply with the given id arrived.
+func (w *w1World) waitReply(cl *w1SimClient, id uint32) *w1Frame {
+	for i := 0; i < 50; i++ {
+		for k := range cl.frames {
+			if cl.frames[k].ReplyID == id {
+				return &cl.frames[k]
+			}
+		}
+		if cl.isClosed() {
+			return nil
+		}
+		w.s.Sleep(10 * time.Millisecond)
+	}
+	return nil
+}
+
+// checkHistoryReply is the C43 oracle for one history request, evaluated at quiescence.
+func (w *w1World) checkHistoryReply(cl *w1SimClient, id uint32, req *protocol.HistoryRequest) {
+	s := w.s
+	f := w.waitReply(cl, id)
+	if f == nil {
+		return
+	}
+	s.Probe("nontrivial:C43")
+	max := w.sc.Cfg.HistoryMax
+	if max > 0 && len(f.Pubs) > max {
+		s.Violate("C43", "limit-exceeded", "history reply larger than HistoryMaxPublicationLimit", "history %+v returned %d publications, limit %d", req, len(f.Pubs), max)
+	}
+	if req.Reverse && req.Since != nil && req.Since.Offset == 0 {
+		if f.ErrCode != ErrorBadRequest.Code {
+			s.Violate("C43", "reverse-since-zero", "reverse history since offset 0 not rejected", "history %+v answered with error code %d and %d publications, expected bad request", req, f.ErrCode, len(f.Pubs))
+		}
+		return
+	}
+	// effective filter: the documented clamp of the client limit
+	eff := HistoryFilter{Limit: int(req.Limit), Reverse: req.Reverse}
+	if req.Since != nil {
+		eff.Since = &StreamPosition{Offset: req.Since.Offset, Epoch: req.Since.Epoch}
+	}
+	if max > 0 && (eff.Limit < 0 || eff.Limit > max) {
+		eff.Limit = max
+	}
+	want, err := w.node.History(req.Channel, WithHistoryFilter(eff))
+	if err != nil {
+		var ce *Error
+		if errors.As(err, &ce) {
+			if f.ErrCode != ce.Code {
+				s.Violate("C43", "error-mismatch", "history error differs from node-level error", "history %+v: reply error %d, Node.History error %d", req, f.ErrCode, ce.Code)
+			}
+		}
+		return
+	}
+	if f.ErrCode != 0 {
+		s.Violate("C43", "unexpected-error", "history request failed although Node.History succeeds", "history %+v: error %d", req, f.ErrCode)
+		return
+	}
+	if f.Offset != want.Offset || f.Epoch != want.Epoch || len(f.Pubs) != len(want.Publications) {
+		s.Violate("C43", "result-mismatch", "history reply differs from node-level result", "history %+v (effective limit %d): reply offset=%d epoch=%s n=%d, Node.History offset=%d epoch=%s n=%d", req, eff.Limit, f.Offset, f.Epoch, len(f.Pubs), want.Offset, want.Epoch, len(want.Publications))
+		return
+	}
+	for i, p := range want.Publications {
+		if f.Pubs[i].Offset != p.Offset || f.Pubs[i].Data != string(p.Data) {
+			s.Violate("C43", "result-mismatch", "history reply differs from node-level result", "history %+v: publication %d is offset %d %s, Node.History has offset %d %s", req, i, f.Pubs[i].Offset, f.Pubs[i].Data, p.Offset, p.Data)
+			return
+		}
+	}
+}
+
+// checkLiveness is the C36 oracle: pong timeout, stale close and connection expiry on
+// the virtual clock. All bounds come from the configuration the script itself set.
+func (w *w1World) checkLiveness(cl *w1SimClient) {
+	s := w.s
+	cfg := w.sc.Cfg
+	tol := 50 * time.Millisecond
+	pongTO := time.Duration(cfg.PongMs) * time.Millisecond
+	stale := time.Duration(cfg.StaleMs) * time.Millisecond
+	grace := time.Duration(cfg.ExpiredDelayMs) * time.Millisecond
+	runEnd := s.Now()
+	closedAt := cl.closedAt
+	if !cl.isClosed() {
+		closedAt = runEnd + time.Hour
+	}
+	// --- stale: never authenticated
+	authenticated := false
+	for _, cb := range cl.cbs {
+		if cb.Kind == "connect" {
+			authenticated = true
+		}
+	}
+	for _, c := range cl.cmds {
+		if c.Kind == "connect" {
+			authenticated = true // a connect attempt: the stale rule is judged only for silent peers
+		}
+	}
+	if !authenticated && len(cl.cmds) == 0 {
+		s.Probe("nontrivial:C36")
+		due := cl.acceptedAt + stale
+		switch {
+		case cl.isClosed() && cl.closeCode == DisconnectStale.Code && (closedAt < due-tol || closedAt > due+tol):
+			s.Violate("C36", "stale-timing", "stale close at the wrong time", "client %d accepted at %v, stale delay %v, closed as stale at %v", cl.idx, cl.acceptedAt, stale, closedAt)
+		case closedAt > due+tol && runEnd > due+tol:
+			s.Violate("C36", "stale-missing", "unauthenticated connection not closed after the stale delay", "client %d accepted at %v never authenticated, stale delay %v, still open at %v (closed at %v code %d)", cl.idx, cl.acceptedAt, stale, due+tol, closedAt, cl.closeCode)
+		}
+		return
+	}
+	if cl.isClosed() && cl.closeCode == DisconnectStale.Code && cl.onConnectRan {
+		s.Violate("C36", "stale-authenticated", "authenticated connection closed as stale", "client %d connected but was closed as stale at %v", cl.idx, closedAt)
+	}
+	// --- pong timeout
+	var pings []time.Duration
+	for _, f := range cl.frames {
+		if f.Kind == "ping" {
+			pings = append(pings, f.At)
+		}
+	}
+	answered := func(t time.Duration) bool { // a pong handled within the timeout of the ping at t
+		for _, c := range cl.cmds {
+			if c.Kind == "pong" && c.At >= t && c.At < t+pongTO-tol {
+				return true
+			}
+		}
+		return false
+	}
+	lateOrNone := func(t time.Duration) bool {
+		for _, c := range cl.cmds {
+			if c.Kind == "pong" && c.At >= t && c.At <= t+pongTO+tol {
+				return false
+			}
+		}
+		return true
+	}
+	for _, t := range pings {
+		s.Probe("nontrivial:C36")
+		due := t + pongTO
+		if lateOrNone(t) && closedAt > due+tol && runEnd > due+tol {
+			s.Violate("C36", "no-pong-missing", "connection not closed although no pong arrived within the timeout", "client %d: ping at %v, pong timeout %v, no pong, but open at %v (closed at %v code %d)", cl.idx, t, pongTO, due+tol, closedAt, cl.closeCode)
+		}
+	}
+	if cl.isClosed() && cl.closeCode == DisconnectNoPong.Code {
+		ok := false
+		for _, t := range pings {
+			if closedAt >= t+pongTO-tol && closedAt <= t+pongTO+tol && !answered(t) {
+				ok = true
+			}
+		}
+		if !ok {
+			s.Violate("C36", "no-pong-wrong", "no-pong disconnect without an unanswered ping", "client %d closed with no-pong at %v; pings at %v, pong timeout %v", cl.idx, closedAt, pings, pongTO)
+		}
+	}
+	// --- connection expiry
+	if cl.spec.ExpireInSec > 0 && cl.onConnectRan {
+		var connectAt time.Duration
+		for _, c := range cl.cmds {
+			if c.Kind == "connect" {
+				connectAt = c.At
+				break
+			}
+		}
+		// expiry as absolute simulated time: whole seconds since the run started
+		exp := connectAt.Truncate(time.Second) + time.Duration(cl.spec.ExpireInSec)*time.Second
+		base := w.startUnix
+		for _, op := range w.nodeOps {
+			if op.Kind == "nrefresh" && op.User == cl.spec.User && op.Err == "" && op.At < closedAt && op.At > connectAt && op.N != 0 {
+				exp = time.Duration(int64(op.N)-base) * time.Second
+			}
+		}
+		s.Probe("nontrivial:C36")
+		if cl.isClosed() && cl.closeCode == DisconnectExpired.Code && closedAt < exp-tol {
+			s.Violate("C36", "expired-early", "connection closed as expired before its expiry", "client %d: expiry at %v (after refreshes), closed as expired at %v", cl.idx, exp, closedAt)
+		}
+		due := exp + grace + time.Second + tol
+		if closedAt > due && runEnd > due {
+			s.Violate("C36", "expired-missing", "expired connection not closed", "client %d: expiry at %v + grace %v, still open at %v (closed at %v code %d)", cl.idx, exp, grace, due, closedAt, cl.closeCode)
+		}
+	}
+}
+
+// presenceKey is a canonical rendering of the node-level presence of a channel.
+func (w *w1World) presenceKey(ch string) string {
+	res, err := w.node.Presence(ch)
+	if err != nil {
+		return "err"
+	}
+	var ids []string
+	for id, info := range res.Presence {
+		ids = append(ids, id+"/"+info.UserID)
+	}
+	sort.Strings(ids)
+	return strings.Join(ids, ",")
+}
+
+func (w *w1World) checkPresenceReply(cl *w1SimClient, id uint32, ch string, stats bool, before string) {
+	s := w.s
+	f := w.waitReply(cl, id)
+	if f == nil || f.ErrCode != 0 {
+		return
+	}
+	if w.presenceKey(ch) != before {
+		// other connections changed the presence set while the request was in flight:
+		// the reply may equal any state in between
+		s.Probe("c43_presence_changed_during_request")
+		return
+	}
+	s.Probe("nontrivial:C43")
+	if stats {
+		want, err := w.node.PresenceStats(ch)
+		if err != nil || f.Raw.PresenceStats == nil {
+			return
+		}
+		if w.presenceKey(ch) != before {
+			s.Probe("c43_presence_changed_during_request")
+			return
+		}
+		if int(f.Raw.PresenceStats.NumClients) != want.NumClients || int(f.Raw.PresenceStats.NumUsers) != want.NumUsers {
+			s.Violate("C43", "presence-stats-mismatch", "presence stats reply differs from node-level result", "%s: reply clients=%d users=%d, node clients=%d users=%d", ch, f.Raw.PresenceStats.NumClients, f.Raw.PresenceStats.NumUsers, want.NumClients, want.NumUsers)
+		}
+		return
+	}
+	want, err := w.node.Presence(ch)
+	if err != nil || f.Raw.Presence == nil {
+		return
+	}
+	if w.presenceKey(ch) != before {
+		s.Probe("c43_presence_changed_during_request")
+		return
+	}
+	got := f.Raw.Presence.Presence
+	bad := len(got) != len(want.Presence)
+	for id, info := range want.Presence {
+		g, ok := got[id]
+		if !ok || g.User != info.UserID || g.Client != info.ClientID {
+			bad = true
+		}
+	}
+	if bad {
+		s.Violate("C43", "presence-mismatch", "presence reply differs from node-level result", "%s: reply has %d entries, node-level presence %d", ch, len(got), len(want.Presence))
+	}
 }
 
 func (cl *w1SimClient) frameAt(seq int64) time.Duration {
